@@ -25,7 +25,8 @@ Cfg == [opaque : BOOLEAN, wild : BOOLEAN, from : BOOLEAN, nostd : BOOLEAN, impor
 Default == [opaque |-> TRUE, wild |-> FALSE, from |-> FALSE, nostd |-> FALSE, imports |-> 0, ann |-> "default"]
 
 \* what the harness passes as Config::custom_imports / Config::type_annotations
-AllCustomImports == <<"verif_a::Alpha", "verif_b::*", "verif_c::inner::{Beta,Gamma}">>
+\* (two of them glob imports, two of them ending in the same name: none may displace another)
+AllCustomImports == <<"verif_a::Alpha", "verif_b::*", "verif_c::inner::*">>
 CustomImports(n) == IF n = 9 THEN <<>> ELSE SubSeq(AllCustomImports, 1, n)
 Colliding(syms) == [i \in DOMAIN syms |-> "verif_s::Pinned" \o syms[i]]
 CustomImportsFor(n, syms) == IF n = 9 THEN Colliding(syms) ELSE CustomImports(n)
